@@ -1,11 +1,13 @@
 /- driver handler of the `api` stream (line protocol, see Main.lean)
 
   step   <cfg> <env> <state> <call>  →  ok <{"state":…, "resp":…, "published":…}>
-  engine <state> <arn> <record>      →  ok <state>
+  engine <state> <arn> <record>      →  ok <state>      (executions[arn] := record)
+  log    <state> <arn> <events>      →  ok <state>      (histories[arn] := events)
 
-  cfg   = {"region": str, "validateAsl": bool, "logging": bool}
-  env   = {"now": int, "fresh": str, "lintBad": bool}
-  state = {"machines": {arn: record}, "executions": {arn: record}}   (store order kept)
+  cfg   = {"region": str, "validateAsl": bool, "logging": bool, "quirks": [name, …]?}
+  env   = {"now": int, "fresh": str, "lintBad": bool, "publishFails": bool?, "syncOutcome": json?}
+  state = {"machines": {arn: record}, "executions": {arn: record}, "histories": {arn: [event]}}
+          (store order kept)
   call  = {"action": str, "params": json} | {"action": str}          (no params: body not JSON)
 -/
 import AslModel.Drv.Util
@@ -33,7 +35,10 @@ def rdCfg : Json → Option Cfg
     let r ← getStr kvs "region"
     let v ← getBool kvs "validateAsl"
     let l ← getBool kvs "logging"
-    pure ⟨r, v, l⟩
+    let q := match objGet kvs "quirks".toList with
+      | some (.arr qs) => qs
+      | _ => []
+    pure ⟨r, v, l, ⟨q.contains (.str "createUncheckedArn".toList)⟩⟩
   | _ => none
 
 def rdEnv : Json → Option Env
@@ -41,7 +46,7 @@ def rdEnv : Json → Option Env
     let n ← getInt kvs "now"
     let f ← getStr kvs "fresh"
     let l ← getBool kvs "lintBad"
-    pure ⟨n, f, l⟩
+    pure ⟨n, f, l, (getBool kvs "publishFails").getD false, objGet kvs "syncOutcome".toList⟩
   | _ => none
 
 def machineKeys : List String :=
@@ -88,14 +93,20 @@ def rdMap {α : Type} (f : Str → Json → Option α) : List (Str × Json) → 
     let xs ← rdMap f rest
     pure ((k, x) :: xs)
 
+def rdLog (_ : Str) : Json → Option (List Json)
+  | .arr evs => some evs
+  | _ => none
+
 def rdState : Json → Option State
   | .obj kvs =>
-    match objGet kvs "machines".toList, objGet kvs "executions".toList with
-    | some (.obj ms), some (.obj es) => do
+    match objGet kvs "machines".toList, objGet kvs "executions".toList,
+          (objGet kvs "histories".toList).getD (.obj []) with
+    | some (.obj ms), some (.obj es), .obj hs => do
       let m ← rdMap rdMachine ms
       let e ← rdMap rdExec es
-      pure ⟨m, e⟩
-    | _, _ => none
+      let h ← rdMap rdLog hs
+      pure ⟨m, e, h⟩
+    | _, _, _ => none
   | _ => none
 
 def rdCall : Json → Option Call
@@ -106,14 +117,16 @@ def rdCall : Json → Option Call
 
 def showState (s : State) : Json :=
   .obj [("machines".toList, .obj (s.machines.map (fun kv => (kv.1, Machine.toJson kv.1 kv.2)))),
-        ("executions".toList, .obj (s.executions.map (fun kv => (kv.1, Exec.toJson kv.1 kv.2))))]
+        ("executions".toList, .obj (s.executions.map (fun kv => (kv.1, Exec.toJson kv.1 kv.2)))),
+        ("histories".toList, .obj (s.histories.map (fun kv => (kv.1, .arr kv.2))))]
 
 def showResp : Response → Json
   | .ok b => .obj [("status".toList, .num 200), ("body".toList, b)]
   | .okEmpty => .obj [("status".toList, .num 200), ("text".toList, .str [])]
   | .error t => .obj [("status".toList, .num 400), ("type".toList, .str t)]
   | .invalidAction => .obj [("status".toList, .num 400), ("text".toList, .str "InvalidAction".toList)]
-  | .internalError => .obj [("status".toList, .num 500), ("text".toList, .str "InternalError".toList)]
+  | .timedOut => .obj [("status".toList, .num 408), ("text".toList, .str "Execution Timed Out".toList)]
+  | .internalError => .obj [("status".toList, .num 500), ("type".toList, .str "InternalError".toList)]
 
 def handle : List String → String
   | ["step", cfg, env, state, call] =>
@@ -122,7 +135,7 @@ def handle : List String → String
       if otherActions.contains c.action then "unsupported" else
       let (s', r) := step cfg env s c
       "ok\t" ++ js (.obj [("state".toList, showState s'), ("resp".toList, showResp r),
-                          ("published".toList, (published env s c).getD .null)])
+                          ("published".toList, (published cfg env s c).getD .null)])
     | _, _, _, _ => "unsupported"
   | ["engine", state, arn, record] =>
     match (rd state).bind rdState, rd arn, rd record with
@@ -130,6 +143,10 @@ def handle : List String → String
       match rdExec a r with
       | some e => "ok\t" ++ js (showState (engineWrite s a e))
       | none => "unsupported"
+    | _, _, _ => "unsupported"
+  | ["log", state, arn, events] =>
+    match (rd state).bind rdState, rd arn, rd events with
+    | some s, some (.str a), some (.arr evs) => "ok\t" ++ js (showState (engineLog s a evs))
     | _, _, _ => "unsupported"
   | _ => "bad-op"
 
